@@ -694,6 +694,18 @@ pub fn sugg_corpus() -> Vec<Program> {
         fl.flatten = true;
         out.push(Program { decls: vec![st(vec![opt("first"), opt("last_name"), fl]), st(vec![opt("lorem"), opt("example"), sk])], root: 0, family: "sugg flatten1".into() });
     }
+    // P1b: long names sharing a long prefix (several candidates score above 0.95: the best one,
+    // not the first one, is offered), also lent through a flatten member
+    {
+        out.push(Program { decls: vec![st(vec![opt("max_connection"), opt("max_connections"), opt("max_connections_total"), opt("min_connection_timeout_ms")])], root: 0, family: "sugg long-names".into() });
+        let mut fl = Field::new("inner", Ty::Struct(1));
+        fl.flatten = true;
+        out.push(Program {
+            decls: vec![st(vec![opt("request_timeout"), opt("request_timeout_ms"), fl]), st(vec![opt("request_timeouts"), opt("retry")])],
+            root: 0,
+            family: "sugg long-names flatten".into(),
+        });
+    }
     // P2b/P2c: the flatten member's siblings are renamed (explicitly / by the container's case
     // rule): the names lent to the flatten member are the attribute names, not the identifiers
     {
